@@ -358,6 +358,14 @@ def call_method(I, obj, name, args, kwargs):
                 obj.expr = z3.Concat(obj.expr, z3.Unit(x))
             return None
         if name == 'pop':
+            if args and isinstance(args[0], int) and args[0] == 0:
+                if not P.branch(n > 0):
+                    raise PyRaise(ExcVal('IndexError', ('pop from empty list',)))
+                first = obj.expr[0]
+                x = P.fresh('popped', obj.elem_sort)
+                P.assume(x == first)
+                obj.expr = z3.SubSeq(obj.expr, z3.IntVal(1), n - 1)
+                return x
             if args:
                 raise Unsupported("pop(i) on unbounded list")
             if not P.branch(n > 0):
